@@ -21,7 +21,7 @@ Entry ==
       [] last'.a = "pop" /\ last'.some ->
             LET c == cqs'[Len(cqs')] IN
             [a |-> "pop", r |-> last'.r, some |-> TRUE, ud |-> c.ud, tag |-> c.tag, res |-> c.res, data |-> c.data,
-             amb |-> last'.amb, files |-> fs']
+             amb |-> last'.amb, damb |-> last'.damb, files |-> fs']
       [] last'.a = "shimw" ->
             [a |-> "shimw", f |-> last'.f, off |-> last'.off,
              bytes |-> [i \in 1..last'.wl |-> last'.wv], files |-> fs']
